@@ -269,7 +269,7 @@ PROPS["C16"] = dict(
     technique="property-based testing (rapid) + native coverage-guided fuzzing of the header codec round trip",
     rule=("(a) codec: labels of 0-300 bytes (ascii, random, all-244), payloads of 0-9000 bytes incl. ones starting with the label magic byte; packet "
           "round trip remove(add(p,l))=(p,l), every header prefix refused, labels >255 refused; stream round trip through an in-memory conn that fragments "
-          "writes into generated chunk sizes (1 byte .. 4097, so the header is split at every position) with optional latency. (b) isolation: a fresh real node "
+          "writes into generated chunk sizes (1 byte .. 4097, so the header is split at every position) with optional latency. (a2) 2-4 streams (labels, payloads and fragmentation as in (a)) whose headers are all removed before any payload is read, payloads then read in a generated order: every stream returns its own label and payload; (b) isolation: a fresh real node "
           "per case with label Lr from {'', a, ab, b, 255 x, 254 x + y}, SkipInboundLabelCheck on/off, encryption on/off (label as associated data), receives one "
           "message (ping, indirect ping, alive, suspicion about itself, user packet; TCP ping, push/pull, reliable user message) under sender label Ls in a "
           "single/compound/compressed/CRC carrier, optionally with a doubled header: when the header must not be accepted the outcome is nothing (no outbound "
@@ -279,6 +279,7 @@ PROPS["C16"] = dict(
     tests=[
         dict(name="pkt", run="^TestCodecPacket$", quick=dict(shards=2, checks=20000, timeout=300), thorough=dict(shards=4, checks=400000, timeout=1200)),
         dict(name="stream", run="^TestCodecStream$", quick=dict(shards=4, checks=4000, timeout=300), thorough=dict(shards=6, checks=100000, timeout=1800)),
+        dict(name="inter", run="^TestCodecStreamInterleaved$", quick=dict(shards=4, checks=1500, timeout=300), thorough=dict(shards=6, checks=40000, timeout=1800)),
         dict(name="iso", run="^TestIsolation$", quick=dict(shards=6, checks=800, timeout=600), thorough=dict(shards=6, checks=30000, timeout=3000)),
         dict(name="two", run="^TestTwoClusters$", quick=dict(shards=4, checks=40, timeout=600), thorough=dict(shards=4, checks=1500, timeout=3000)),
         dict(name="seedcorpus", kind="plain", run="^Fuzz", quick=dict(shards=1, timeout=300)),
